@@ -242,7 +242,12 @@ def run(pid, tier, seed):
                                 "threshold.Scheme; theorems of Props/%s.v rest on it" % (j, pid), step=sc["steps"][j],
                            scenario=dict(sc, steps=sc["steps"][:j + 1])), no_input=True)
     steps = [st for sc in scen for st in sc["steps"]]
-    chk.cov["evaluations"] = len(steps)
+    backend_cases = []
+    if pid == "C11":
+        # cancellation inside the protocol back ends (waits of TBLS.KeyGen / TPS.KeyGen): harness/dkg, checks/dkg.py
+        from checks import dkg
+        backend_cases = dkg.run_backend_cancel(chk, tier, seed)
+    chk.cov["evaluations"] = len(steps) + len(backend_cases)
     chk.cov["scenarios"] = len(scen)
     chk.cov["distinct_nontrivial"] = len(set(vlib.canon_hash([(st["op"], st.get("plan"), st.get("inject")) for st in sc["steps"]]) for sc in scen
                                              if any(st["inits"] or st["reached"] for st in sc["steps"])))
